@@ -44,6 +44,8 @@ SPECS = {
     "DenseBreedingValueMatrix": ("pybrops.popgen.bvmat.DenseBreedingValueMatrix", ("taxa", "trait"), "float"),
     "DenseMolecularCoancestryMatrix": ("pybrops.popgen.cmat.DenseMolecularCoancestryMatrix", ("taxa", "taxa"), "float"),
     "DenseTwoWayDHAdditiveGeneticVarianceMatrix": ("pybrops.model.vmat.DenseTwoWayDHAdditiveGeneticVarianceMatrix", ("taxa", "taxa", "trait"), "float"),
+    "DenseThreeWayDHAdditiveGeneticVarianceMatrix": ("pybrops.model.vmat.DenseThreeWayDHAdditiveGeneticVarianceMatrix", ("taxa", "taxa", "taxa", "trait"), "float"),
+    "DenseFourWayDHAdditiveGeneticVarianceMatrix": ("pybrops.model.vmat.DenseFourWayDHAdditiveGeneticVarianceMatrix", ("taxa", "taxa", "taxa", "taxa", "trait"), "float"),
 }
 GROUP_FIELDS = ("name", "stix", "spix", "len")
 
@@ -183,7 +185,10 @@ def compare_model(name, obj, ids, regime):
         if d.shape != e.shape:
             bad.append("mat shape")
         elif d.dtype.kind == "f":
-            if not numpy.allclose(d, e, rtol=1e-9, atol=1e-6, equal_nan=True):
+            # id-coded cells are exactly representable: compare exactly (a relative tolerance would hide a unit difference under
+            # the 1e9/1e12 blocks of the three-/four-way matrices); breeding values pass through unscale() and get a tolerance
+            if (name == "DenseBreedingValueMatrix" and not numpy.allclose(d, e, rtol=1e-9, atol=1e-6, equal_nan=True)) or \
+                    (name != "DenseBreedingValueMatrix" and not numpy.array_equal(d, e)):
                 bad.append("mat")
         elif not numpy.array_equal(d, e):
             bad.append("mat")
